@@ -101,7 +101,8 @@ def sensitivity(args):
             subprocess.run(["git", "-C", "/repo", "worktree", "remove", "--force", wt], capture_output=True)
             shutil.rmtree(wt, ignore_errors=True)
             tag = subprocess.run(["bash", "-c", f"printf '%s' '{wt}' | md5sum | cut -c1-10"], capture_output=True, text=True).stdout.strip()
-            shutil.rmtree(os.path.join(ROOT, "build", f"sim-{tag}"), ignore_errors=True)
+            for d in (f"sim-{tag}", f"target-{tag}", f"target-sfs-{tag}"):
+                shutil.rmtree(os.path.join(ROOT, "build", d), ignore_errors=True)
             for f in glob.glob(os.path.join(ROOT, "build", "bin", f"*-{tag}")):
                 os.remove(f)
     det = sum(1 for r in results if r[3] == "DETECTED")
